@@ -42,7 +42,14 @@ func (r *Run) oracleVerify2(w *World, res *OpResult, t Truth2, strictRecovery bo
 		r.Violate("usable-below-lower", "Verify counts %d usable slices but %d of %d slices are cleanly present (intact file or non-overlapped occurrence)", c.UsableDataShardCount, sc.Lower, sc.N)
 	}
 	intact := len(t.IntactExps)
-	if c.UsableParityShardCount > intact {
+	upperIntact := intact
+	if !t.IndexIntact && t.MaxIntactAnySet > upperIntact {
+		// the index on disk no longer identifies the set: a reader that
+		// takes the set description from a volume file may end up with
+		// another generation's set, whose intact blocks are intact too
+		upperIntact = t.MaxIntactAnySet
+	}
+	if c.UsableParityShardCount > upperIntact {
 		r.Violate("recovery-count-mismatch", "more: Verify counts %d usable recovery blocks, %d distinct intact blocks are stored beside the index", c.UsableParityShardCount, intact)
 	}
 	if strictRecovery && c.UsableParityShardCount < intact {
